@@ -27,3 +27,20 @@ def in_alphabet(s, alphabet) -> bool:
         if ch not in alphabet:
             return False
     return True
+
+
+def pinned(value):
+    """Concretize a symbolic value whose every character / digit has already been pinned by the path's
+    branch decisions (e.g. after in_alphabet()).  Under CrossHair this asks z3 for the model of the current path;
+    the path then stands for exactly that value.  Used where the code under test is dominated by string library
+    calls (strip/replace/split/regex) that z3's sequence theory decides very slowly: the solver still enumerates
+    the bounded input space exhaustively, but relational generalisation over the string is given up (stated in
+    the evidence of the checks that use it).  Identity in plain Python."""
+    try:
+        from crosshair.core import realize
+        from crosshair.tracers import is_tracing
+    except Exception:
+        return value
+    if not is_tracing():
+        return value
+    return realize(value)
